@@ -116,7 +116,7 @@ def run_unit(unit, rec):
         adm.append(float(tot.min() + 0.4 * (tot.max() - tot.min())))
     adm = np.array(adm)
     P_all = P
-    for L1name, L1 in (("none", None), ("per-sample", adm), ("scalar", float(adm[0]))):
+    for L1name, L1 in (("none", None), ("per-sample", adm), ("scalar", float(adm[0])), ("per-sample/batch2", adm)):
         P = P_all if L1name != "scalar" else P_all[:1]
         T_run = T if L1name != "scalar" else T[:1]
         sig = dict(base, L1=L1name)
@@ -128,6 +128,11 @@ def run_unit(unit, rec):
             kwargs["Epsilon"] = Eps_arg
         if L1 is not None:
             kwargs["L1"] = L1
+        if L1name.endswith("batch2"):
+            kwargs["batch_size"] = 2
+            # accurate first stage: with the default first-order solver the attainable error of the padded batch is only
+            # known to ~1e-4, the same size as l2_eps, which makes the second stage marginally infeasible now and then
+            kwargs["solver"] = "CLARABEL"
         try:
             X, Bp, Bv = est.minimize_variance(P, **kwargs)
         except Exception as e:  # noqa
